@@ -173,7 +173,7 @@ func EqualCommittee(n int) Committee {
 func LongIDCommittee(n int) Committee {
 	c := make(Committee, n)
 	for i := range c {
-		c[i] = Member{ID: []byte(fmt.Sprintf("validator-%d", i)), Weight: 1}
+		c[i] = Member{ID: []byte(fmt.Sprintf("orbs-validator-node-eu-west-1-deployment-%d", i)), Weight: 1}
 	}
 	return c
 }
